@@ -208,9 +208,8 @@ class SerialEngine(Engine):
       m = rng.choice(MODS)
       form = rng.random()
       is_from = form >= 0.6 and '.' in m
-      if (m, is_from) in used:
-        continue        # _IMPORTS is a set: two statements with equal (module, is_from) have no defined order
-      used.add((m, is_from))
+      # the same module may be imported several times, also in the same form under different aliases (the header
+      # must not depend on which of them the set _IMPORTS happens to yield first)
       if form < 0.4:
         ops.append(['import', 'import ' + m])
       elif form < 0.6:
@@ -332,6 +331,26 @@ class SerialEngine(Engine):
         pass
     finally:
       d.close()
+    # (3b) the import header depends only on the SET of recorded imports: ImportManager over every rotation / the
+    # reversal of the recorded statements gives the same statements
+    e = Builder(case)
+    try:
+      try:
+        e.apply([op for op in case['ops'] if op[0] == 'import'])
+        cfgE = e.gin.config
+        sts = sorted(cfgE._IMPORTS, key=lambda st: repr((st.module, st.is_from, st.alias)))  # pylint: disable=protected-access
+        hdr = lambda l: [st.format() for st in cfgE.ImportManager(l).sorted_imports]
+        h0 = hdr(sts)
+        for perm in [sts[::-1]] + [sts[i:] + sts[:i] for i in range(1, len(sts))]:
+          h1 = hdr(perm)
+          if h1 != h0:
+            fails.append(('import-header-order-dependent', 'the recorded imports %r give the header %r, the same imports '
+                          'enumerated as %r give %r' % ([st.format() for st in sts], h0, [st.format() for st in perm], h1)))
+            break
+      except Exception:  # pylint: disable=broad-except
+        pass
+    finally:
+      e.close()
     # (4) parameters sorted inside every section; (5) markdown keeps binding lines verbatim
     section, last, cont = None, None, False
     prev = ''
